@@ -119,6 +119,43 @@ fn gen_case(prop: &str, seed: u64, i: u64, corpus: &Corpus) -> Case {
   Case { kind: "generated".into(), label: format!("pgen seed {pseed}"), user: g.project, entry: g.entry, features: g.features }
 }
 
+/// `let x = a + b;` -> `let x = (a + b) | 0;`, `a * b` -> `Math.imul(a, b)` (only the rigid
+/// statement shape the emitter produces; used to attribute a disagreement, never to judge)
+pub fn wrap_arithmetic(js: &str) -> String {
+  let mut out = String::with_capacity(js.len() + 256);
+  for line in js.lines() {
+    let t = line.trim_start();
+    let indent = &line[..line.len() - t.len()];
+    let mut done = false;
+    if let Some(rest) = t.strip_prefix("let ").or_else(|| if t.starts_with('_') { Some(t) } else { None }) {
+      if let Some((lhs, rhs)) = rest.split_once(" = ") {
+        let rhs = rhs.trim_end_matches(';');
+        let parts: Vec<&str> = rhs.split(' ').collect();
+        let operand = |s: &str| !s.is_empty() && s.chars().all(|c| c.is_ascii_alphanumeric() || c == '_' || c == '-' || c == '$');
+        if parts.len() == 3 && operand(parts[0]) && operand(parts[2]) && operand(lhs.trim()) {
+          let kw = if t.starts_with("let ") { "let " } else { "" };
+          match parts[1] {
+            "+" | "-" => {
+              out.push_str(&format!("{indent}{kw}{lhs} = ({} {} {}) | 0;\n", parts[0], parts[1], parts[2]));
+              done = true;
+            }
+            "*" => {
+              out.push_str(&format!("{indent}{kw}{lhs} = Math.imul({}, {});\n", parts[0], parts[2]));
+              done = true;
+            }
+            _ => {}
+          }
+        }
+      }
+    }
+    if !done {
+      out.push_str(line);
+      out.push('\n');
+    }
+  }
+  out
+}
+
 fn owner_of_run(text: &str) -> Option<String> {
   let mut cur = None;
   for l in text.lines() {
@@ -195,6 +232,52 @@ fn worker(prop: &str, ctx: WorkerCtx) {
       }
       let mut fails = Vec::new();
       for (symptom, what) in judge(prop, &o) {
+        // cause attribution by intervention: if replacing the emitted `Math.floor(a / b)` by
+        // `Math.trunc(a / b)` makes the TypeScript agree with the wasm, the disagreement is exactly
+        // the rounding direction of integer division
+        if symptom.starts_with("ts-vs-wasm") {
+          if let (Some(js), Some(w)) = (&o.js, &o.wasm_trace) {
+            let rerun = |patched: String| -> Option<crate::trace::Trace> {
+              let mut o2 = o.clone();
+              o2.js = Some(patched);
+              o2.ts_trace = None;
+              let mut refs: Vec<&mut Outcome> = vec![&mut o2];
+              diffexec::run_ts_batch(&mut refs, &lim, 20000);
+              o2.ts_trace
+            };
+            let trunc = js.replace("Math.floor(", "Math.trunc(");
+            let mut classified = false;
+            let mut inconclusive = false;
+            if trunc != *js {
+              match rerun(trunc.clone()) {
+                Some(t) if !t.conclusive() => inconclusive = true,
+                Some(t) if diffexec::same(w, &t) => {
+                  fails.push(json!({"sig": "ts-vs-wasm:integer-division-rounds-down-in-ts", "what": format!("{what} (agrees once Math.floor is replaced by Math.trunc in the emitted TypeScript)"), "replay": diffexec::render_project(&case.user)}));
+                  classified = true;
+                }
+                _ => {}
+              }
+            }
+            if !classified && !inconclusive {
+              // second intervention: make `let x = a op b;` wrap to 32 bits as wasm does
+              match rerun(wrap_arithmetic(&trunc)) {
+                Some(t) if !t.conclusive() => inconclusive = true,
+                Some(t) if diffexec::same(w, &t) => {
+                  fails.push(json!({"sig": "ts-vs-wasm:ts-arithmetic-does-not-wrap-to-32-bits", "what": format!("{what} (agrees once + - * in the emitted TypeScript wrap to 32 bits; the source-level run does not overflow, the optimised code relies on wrap-around)"), "replay": diffexec::render_project(&case.user)}));
+                  classified = true;
+                }
+                _ => {}
+              }
+            }
+            if inconclusive {
+              fails.push(json!({"unclassified": format!("{symptom} (patched TypeScript run was inconclusive)"), "what": what}));
+              continue;
+            }
+            if classified {
+              continue;
+            }
+          }
+        }
         let count = seen.entry(symptom.clone()).or_insert(0);
         *count += 1;
         let location_only = !(symptom.starts_with("wasm-differs") || symptom.starts_with("ts-vs-wasm") || symptom.starts_with("wasm-fault") || symptom == "wasm-no-arm-matched" || symptom.starts_with("ts-fault"));
